@@ -345,11 +345,11 @@ func c15Registry(e *c15env) {
 		var out []lookup
 		ast.Inspect(g.Body, func(n ast.Node) bool {
 			if as, ok := n.(*ast.AssignStmt); ok && len(as.Lhs) == 2 && len(as.Rhs) == 1 {
-				if ix, ok := ast.Unparen(as.Rhs[0]).(*ast.IndexExpr); ok && e.selects(ix.X, e.clientsF) {
+				if key := e.clientLookup(g, as.Rhs[0]); key != nil {
 					v, _ := as.Lhs[0].(*ast.Ident)
 					o, _ := as.Lhs[1].(*ast.Ident)
 					if v != nil && o != nil {
-						out = append(out, lookup{g.Render(ix.Index), v, o, ix.Index})
+						out = append(out, lookup{g.Render(key), v, o, key})
 					}
 				}
 			}
@@ -541,7 +541,7 @@ func c15Registry(e *c15env) {
 			c.Violate("R-C15-6", cons, pos(c, del), "the client table entry is deleted without looking at the registered client: after a take-over the stale connection's teardown removes the new, live connection, which then receives no messages")
 		}
 	}
-	c.RequireCount("R-C15-6", "delete(Broker.clients, id) sites", sites, 2)
+	c.RequireCount("R-C15-6", "delete(Broker.clients, id) sites", sites, 1)
 }
 
 // c15rootIdent returns the identifier at the root of a selector chain (nil otherwise).
